@@ -12,7 +12,7 @@ MANIFEST = dict(
     text="Operator half, proved in Lean: once the downstream side is closed - by a terminal, by an external Unsubscribe, or from inside a callback - the source has been released before the closing call "
          "returned, for every machine, script and cut (C14.released / cut, C03op.released, released_from_inside); finalizer trees with arbitrary subsets of panicking teardowns: every teardown runs "
          "exactly once, depth first, and the joined panic (root causes in run order, wrapped as unsubscription errors) is raised only after all of them have run (teardown_tree, teardown_every_subset, "
-         "teardown_flat), with the two set-ups of the pinned tree that release a goroutine in the same unisolated closure as the upstream Unsubscribe as witnessed known findings. "
+         "teardown_flat); ObserveOn/SubscribeOn, ThrowOnContextCancel and ToChannel release their goroutine in a deferred action of the teardown closure, which runs although an upstream teardown panics (deferred_release; fix 694a874). "
          "That an operator's returned teardown reaches every upstream subscription is the regenerated SubscribeShape fact (C14.table_ok). Tie: kinds ops/chains/cutin (teardown count of the source probe), "
          "teardown (probe with panicking teardowns below every operator and inside Merge/TakeUntil/CombineLatest set-ups, every subset), leak (goroutines created by the library must not survive the "
          "subscription, for every goroutine/timer-owning operator and each way of ending). Kernel half (races between Complete, Error, Unsubscribe and Add; Add after disposal): see the kernel part when present in this build.",
